@@ -19,8 +19,8 @@ import (
 	"github.com/cloudflare/circl/zk/dl"
 	"github.com/cloudflare/circl/zk/dleq"
 	"github.com/cloudflare/circl/zk/qndleq"
-	"golang.org/x/crypto/sha3"
 	"github.com/cloudflare/circl/zzverif/vlib"
+	"golang.org/x/crypto/sha3"
 )
 
 type line struct {
@@ -66,7 +66,7 @@ func main() {
 		m    oprf.Mode
 		name string
 	}{{oprf.BaseMode, "base"}, {oprf.VerifiableMode, "voprf"}, {oprf.PartialObliviousMode, "poprf"}}
-	sites := []string{"none", "eval-element", "eval-swap", "proof-c", "proof-s", "other-key", "other-info", "blinded-element", "eval-identity", "proof-zero"}
+	sites := []string{"none", "eval-element", "eval-swap", "proof-c", "proof-s", "other-key", "other-info", "blinded-element", "eval-identity", "proof-zero", "proof-nil", "zero-blind"}
 	for _, su := range suites {
 		g := su.Group()
 		for _, md := range modes {
@@ -105,15 +105,21 @@ func main() {
 				case oprf.BaseMode:
 					c, s := oprf.NewClient(su), oprf.NewServer(su, key)
 					blind = func() (*oprf.FinalizeData, *oprf.EvaluationRequest, error) { return c.Blind(inputs) }
-					detBlind = func(bl []oprf.Blind) (*oprf.FinalizeData, *oprf.EvaluationRequest, error) { return c.DeterministicBlind(inputs, bl) }
+					detBlind = func(bl []oprf.Blind) (*oprf.FinalizeData, *oprf.EvaluationRequest, error) {
+						return c.DeterministicBlind(inputs, bl)
+					}
 					evaluate = func(req *oprf.EvaluationRequest, inf []byte) (*oprf.Evaluation, error) { return s.Evaluate(req) }
-					finalize = func(fd *oprf.FinalizeData, ev *oprf.Evaluation, pk *oprf.PublicKey, inf []byte) ([][]byte, error) { return c.Finalize(fd, ev) }
+					finalize = func(fd *oprf.FinalizeData, ev *oprf.Evaluation, pk *oprf.PublicKey, inf []byte) ([][]byte, error) {
+						return c.Finalize(fd, ev)
+					}
 					full = func(in, inf []byte) ([]byte, error) { return s.FullEvaluate(in) }
 					sverify = func(in, inf, outp []byte) bool { return s.VerifyFinalize(in, outp) }
 				case oprf.VerifiableMode:
 					c, s := oprf.NewVerifiableClient(su, key.Public()), oprf.NewVerifiableServer(su, key)
 					blind = func() (*oprf.FinalizeData, *oprf.EvaluationRequest, error) { return c.Blind(inputs) }
-					detBlind = func(bl []oprf.Blind) (*oprf.FinalizeData, *oprf.EvaluationRequest, error) { return c.DeterministicBlind(inputs, bl) }
+					detBlind = func(bl []oprf.Blind) (*oprf.FinalizeData, *oprf.EvaluationRequest, error) {
+						return c.DeterministicBlind(inputs, bl)
+					}
 					evaluate = func(req *oprf.EvaluationRequest, inf []byte) (*oprf.Evaluation, error) { return s.Evaluate(req) }
 					finalize = func(fd *oprf.FinalizeData, ev *oprf.Evaluation, pk *oprf.PublicKey, inf []byte) ([][]byte, error) {
 						return oprf.NewVerifiableClient(su, pk).Finalize(fd, ev)
@@ -123,7 +129,9 @@ func main() {
 				default:
 					c, s := oprf.NewPartialObliviousClient(su, key.Public()), oprf.NewPartialObliviousServer(su, key)
 					blind = func() (*oprf.FinalizeData, *oprf.EvaluationRequest, error) { return c.Blind(inputs) }
-					detBlind = func(bl []oprf.Blind) (*oprf.FinalizeData, *oprf.EvaluationRequest, error) { return c.DeterministicBlind(inputs, bl) }
+					detBlind = func(bl []oprf.Blind) (*oprf.FinalizeData, *oprf.EvaluationRequest, error) {
+						return c.DeterministicBlind(inputs, bl)
+					}
 					evaluate = func(req *oprf.EvaluationRequest, inf []byte) (*oprf.Evaluation, error) { return s.Evaluate(req, inf) }
 					finalize = func(fd *oprf.FinalizeData, ev *oprf.Evaluation, pk *oprf.PublicKey, inf []byte) ([][]byte, error) {
 						return oprf.NewPartialObliviousClient(su, pk).Finalize(fd, ev, inf)
@@ -198,6 +206,39 @@ func main() {
 						if e1 != nil || !bytes.Equal(o1[0], outs[i]) {
 							hl.BatchConsistent = false
 						}
+					}
+				}
+				// a zero blind (RFC 9497 blinds are non-zero): the blinded element is the identity and 1/0 = 0, so the call sequence either
+				// fails somewhere or - every mode - returns the server's direct evaluation; finalize_ok counts WRONG outputs here
+				{
+					zl := agg["zero-blind"]
+					zl.Total++
+					bl := make([]oprf.Blind, nin)
+					for i := range bl {
+						bl[i] = g.RandomNonZeroScalar(rd)
+					}
+					bl[rng.Intn(nin)] = g.NewScalar()
+					if safe(func() {
+						fdz, reqz, ez := detBlind(bl)
+						if ez != nil {
+							return
+						}
+						evz, ee := evaluate(reqz, info)
+						if ee != nil {
+							return
+						}
+						oz, ef := finalize(fdz, evz, key.Public(), info)
+						if ef != nil {
+							return
+						}
+						for i := range inputs {
+							if f, e := full(inputs[i], info); e != nil || !bytes.Equal(f, oz[i]) {
+								zl.FinalizeOK++
+								return
+							}
+						}
+					}) {
+						zl.Panics++
 					}
 				}
 				// alterations (each on a fresh copy of the honest evaluation)
@@ -284,6 +325,11 @@ func main() {
 							agg["proof-zero"].Total++
 						}
 					}
+					{ // an evaluation that carries no proof at all (a server answering in base mode)
+						e := cp()
+						e.Proof = nil
+						try("proof-nil", fd, e, key.Public(), info)
+					}
 					try("other-key", fd, cp(), key2.Public(), info)
 					if md.m == oprf.PartialObliviousMode {
 						try("other-info", fd, cp(), key.Public(), append(append([]byte{}, info...), 'x'))
@@ -300,7 +346,7 @@ func main() {
 					_ = reqB
 					try("blinded-element", fdB, cp(), key.Public(), info)
 				} else {
-					for _, s := range []string{"proof-c", "proof-s", "proof-zero", "other-key", "other-info", "blinded-element"} {
+					for _, s := range []string{"proof-c", "proof-s", "proof-zero", "proof-nil", "other-key", "other-info", "blinded-element"} {
 						agg[s].Total++
 					}
 				}
@@ -380,6 +426,11 @@ func proofs(o *vlib.Out, rng *rand.Rand, reps int) {
 				}
 				rec(obj, site, func() bool { return p != nil && v.VerifyBatch(A, kA, Bs, kBs, p) })
 			}
+			// the encoded proof with bytes appended is not the encoding of a proof
+			rec(obj, "proof-trailing", func() bool {
+				p := alt(append(append([]byte{}, pb...), 0xaa))
+				return p != nil && v.VerifyBatch(A, kA, Bs, kBs, p)
+			})
 			G1 := g.Generator()
 			rec(obj, "statement-a", func() bool { return v.VerifyBatch(g.NewElement().Add(A, G1), kA, Bs, kBs, pr) })
 			rec(obj, "statement-b", func() bool { return v.VerifyBatch(A, g.NewElement().Add(kA, G1), Bs, kBs, pr) })
@@ -470,8 +521,12 @@ func proofs(o *vlib.Out, rng *rand.Rand, reps int) {
 			rec(sobj, "userid", func() bool { return dl.Verify(g, G1, kG, sp, []byte("usex"), oi) })
 			rec(sobj, "context", func() bool { return dl.Verify(g, G1, kG, sp, uid, nil) })
 			rec(sobj, "false-statement", func() bool { return dl.Verify(g, G1, g.NewElement().Mul(G1, k2), sp, uid, oi) })
-			rec(sobj, "zero-response", func() bool { return dl.Verify(g, G1, g.NewElement().Mul(G1, k2), dl.Proof{V: sp.V, R: g.NewScalar()}, uid, oi) })
-			rec(sobj, "identity-elements", func() bool { return dl.Verify(g, G1, g.NewElement().Mul(G1, k2), dl.Proof{V: id, R: g.NewScalar()}, uid, oi) })
+			rec(sobj, "zero-response", func() bool {
+				return dl.Verify(g, G1, g.NewElement().Mul(G1, k2), dl.Proof{V: sp.V, R: g.NewScalar()}, uid, oi)
+			})
+			rec(sobj, "identity-elements", func() bool {
+				return dl.Verify(g, G1, g.NewElement().Mul(G1, k2), dl.Proof{V: id, R: g.NewScalar()}, uid, oi)
+			})
 			// ---- simplest OT
 			ol := get(fmt.Sprintf("simot %v", g), "ot")
 			ol.Ev = "ot"
@@ -500,6 +555,12 @@ func proofs(o *vlib.Out, rng *rand.Rand, reps int) {
 					}
 					if rcv2.Round3Receiver(e0, e1, 1-choice) == nil {
 						ol.OtherDecrypts++
+					}
+					// ciphertexts of unequal length (one truncated in transit) are an error for the receiver, whichever it chose
+					if len(e1) > 0 {
+						rcv3, rcv4 := rcv, rcv
+						_ = rcv3.Round3Receiver(e0, e1[:len(e1)-1], choice)
+						_ = rcv4.Round3Receiver(e0[:len(e0)-1], e1, choice)
 					}
 				}) {
 					ol.Panics++
@@ -544,12 +605,30 @@ func proofs(o *vlib.Out, rng *rand.Rand, reps int) {
 		}
 		one := big.NewInt(1)
 		rec("none", func() bool { return pr.Verify(g, gx, h, hx, N) })
-		rec("proof-c", func() bool { return qndleq.Proof{Z: pr.Z, C: new(big.Int).Add(pr.C, one), SecParam: sec}.Verify(g, gx, h, hx, N) })
-		rec("proof-s", func() bool { return qndleq.Proof{Z: new(big.Int).Add(pr.Z, one), C: pr.C, SecParam: sec}.Verify(g, gx, h, hx, N) })
+		rec("proof-c", func() bool {
+			return qndleq.Proof{Z: pr.Z, C: new(big.Int).Add(pr.C, one), SecParam: sec}.Verify(g, gx, h, hx, N)
+		})
+		rec("proof-s", func() bool {
+			return qndleq.Proof{Z: new(big.Int).Add(pr.Z, one), C: pr.C, SecParam: sec}.Verify(g, gx, h, hx, N)
+		})
 		rec("statement-a", func() bool { return pr.Verify(new(big.Int).Mod(new(big.Int).Mul(g, g), N), gx, h, hx, N) })
 		rec("statement-b", func() bool { return pr.Verify(g, new(big.Int).Mod(new(big.Int).Mul(gx, g), N), h, hx, N) })
 		rec("statement-c", func() bool { return pr.Verify(g, gx, new(big.Int).Mod(new(big.Int).Mul(h, h), N), hx, N) })
 		rec("statement-d", func() bool { return pr.Verify(g, gx, h, new(big.Int).Mod(new(big.Int).Mul(hx, h), N), N) })
+		// a statement element written outside [0, N): negated (the challenge hashes the magnitude only, and an even response hides the
+		// sign) or as the same residue plus a multiple of N (wider than the modulus)
+		big1 := new(big.Int).Lsh(N, uint(8*((N.BitLen()+7)/8)))
+		for i := 0; i < 4; i++ {
+			st := []*big.Int{g, gx, h, hx}
+			neg := append([]*big.Int{}, st...)
+			neg[i] = new(big.Int).Neg(st[i])
+			rec("statement-negated", func() bool { return pr.Verify(neg[0], neg[1], neg[2], neg[3], N) })
+			for _, add := range []*big.Int{N, big1} {
+				ov := append([]*big.Int{}, st...)
+				ov[i] = new(big.Int).Add(st[i], add)
+				rec("statement-oversize", func() bool { return pr.Verify(ov[0], ov[1], ov[2], ov[3], N) })
+			}
+		}
 		hxBad := new(big.Int).Exp(h, new(big.Int).Add(x, one), N)
 		rec("false-statement", func() bool { return pr.Verify(g, gx, h, hxBad, N) })
 		// honest-looking proof for the g side only (knows x for g, lies about h)
@@ -558,8 +637,12 @@ func proofs(o *vlib.Out, rng *rand.Rand, reps int) {
 		// degenerate assemblies for a false statement
 		for _, z := range []int64{0, 1, 7} {
 			z := z
-			rec("zero-challenge", func() bool { return qndleq.Proof{Z: big.NewInt(z), C: big.NewInt(0), SecParam: sec}.Verify(g, gx, h, hxBad, N) })
-			rec("prover-parameter", func() bool { return qndleq.Proof{Z: big.NewInt(z), C: big.NewInt(0), SecParam: 0}.Verify(g, gx, h, hxBad, N) })
+			rec("zero-challenge", func() bool {
+				return qndleq.Proof{Z: big.NewInt(z), C: big.NewInt(0), SecParam: sec}.Verify(g, gx, h, hxBad, N)
+			})
+			rec("prover-parameter", func() bool {
+				return qndleq.Proof{Z: big.NewInt(z), C: big.NewInt(0), SecParam: 0}.Verify(g, gx, h, hxBad, N)
+			})
 		}
 		rec("prover-parameter", func() bool { // a 1-bit challenge found by trial
 			for z := int64(0); z < 64; z++ {
